@@ -224,7 +224,9 @@ def fix_unconventional_class_definitions(source: str) -> str:
 
     {{ClassName}}.{{attr}} = {{value}}
     """
-    template = core.compile_template(template)
+    # compile_template caches and shares its result: customise a copy of the class template.
+    template = list(core.compile_template(template))
+    template[0] = copy.copy(template[0])
     template[0].bases = list
     template[0].decorator_list = list
 
